@@ -291,8 +291,13 @@ class Hist:
                         self.real.append([])
                 elif r < 0.88:
                     idx = rng.choice([0, 1, 2, 3, 5, 7, 12])
-                    k = w.key_for_path([change, idx], **kw)
-                    self.record('at.%s.%d' % (c, idx), [k], 'key_for_path([%d, %d], %s)' % (change, idx, kw))
+                    kw3 = dict(kw)
+                    if rng.random() < 0.3 or not getattr(self, 'kfp_cos_done', False):
+                        self.kfp_cos_done = True
+                        kw3['cosigner_id'] = 0        # meaningless for a single-signature wallet: the key is the key of that path all the same
+                        self.ctx.count('key_for_path-with-cosigner_id')
+                    k = w.key_for_path([change, idx], **kw3)
+                    self.record('at.%s.%d' % (c, idx), [k], 'key_for_path([%d, %d], %s)' % (change, idx, kw3))
                 elif r < 0.905:
                     # the account public key is asked for in the middle of the history: it must be the documented one, and it must not
                     # change what the wallet hands out afterwards
